@@ -31,6 +31,7 @@ func c18(c *Ctx) {
 	c18cryption(c)
 	c18keysPerGroup(c)
 	c18padding(c)
+	c18cipherInput(c)
 	c18claims(c)
 	c18bind(c)
 	c18fullBody(c)
